@@ -117,7 +117,8 @@ def run(ctx):
     for case, probs in zip(cases, res):
         ctx.case(json.dumps([case['x'], case['y']]), nontrivial=(case['s'] > 0 and case['d1'] > 0 and case['d2'] > 0))
         for p, detail in probs:
-            ctx.violation('C11|select_copula|%s|%s' % (p, _bucket(case)), 'select_copula: %s (%s) on ranks x=%s y=%s' % (p, detail, case['x'], case['y']), case)
+            ctx.violation('C11|select_copula|%s|%s' % (p, _bucket(case)), 'select_copula: %s (%s) on ranks x=%s y=%s' % (p, detail, case['x'], case['y']),
+                          dict(case, rerun=['harness.props.C11._check', case]))
     ctx.sample({k: cases[len(cases) // 2][k] for k in ('x', 'y', 's', 'd1', 'd2', 'cands')})
     cells = {}
     for (f, t, _, _), ok in zip(jobs, rec):
